@@ -5,6 +5,10 @@ What the extracted model provides (Model/Euclid.v, Model/EuclidLP.v, theorems in
   c19.check    verified witness checker for an embedding (eucl_check_correct): exact rationals, strict distances
   c19.refuted  verified necessary conditions (C19_refute_sound): a profile that is not single-peaked or not
                single-crossing has no embedding, so the implementation must answer False
+  c19.algo     the extracted MIRROR of is_one_euclidean (Model/EuclidAlgo.v, exact LP oracle; eucl_algo_exact_sound: a
+               True answer carries a map accepted by c19.check; completeness only partial): run for m <= 6, n <= 12;
+               its verdict is recorded next to the implementation's and the reference's (evidence: 'mirror c19.algo:
+               ...'); a True answer where c19.decide says False, or an error, is reported as a broken model
   c19.decide   verified EXACT reference decider (eucl_decide_correct: Fourier-Motzkin elimination over Q for every
                axis on which the profile is single-peaked); doubly exponential, run for m <= 6 and n <= 12
 The correspondence therefore has three parts:
@@ -36,7 +40,8 @@ RULE = ("DETERMINISTIC campaign (constant seed %d; VERIF_SEED is ignored because
         "distinct orders (thorough: also m <= 9, n <= 12), each profile in several storage orders (sorted by "
         "position, reversed, extremes in the middle, shuffled), plus 'nested' planted profiles (2..4 voters, "
         "alternatives on up to four scales 200^k so that several groups of alternatives are ranked alike by all "
-        "voters, m <= 12); the generator's embedding must pass c19.check "
+        "voters, m <= 12) and 'runs' planted profiles (common top, a grey run of up to 10 alternatives, up to five "
+        "couples the voters disagree on, grey runs in between, a grey tail, m <= 16); the generator's embedding must pass c19.check "
         "(otherwise the case is discarded and counted as 'generator-bug'); the implementation must answer True "
         "and its map {0..n-1: voters, c+n-1: alternative c}, converted exactly with fractions.Fraction, must pass "
         "c19.check. (2)/(3) small profiles (all sets of orders over 3 alternatives, all sets of <= 2 orders and "
@@ -62,9 +67,10 @@ THEOREMS_FOR_OP = {
                    "False), eucl_check_correct (witness of a True answer)",
     "c19.orders": "eucl_decide_correct; the specification Euclidean is invariant under permutation of the ballots "
                   "(Euclidean_perm)"}
-TRUSTED = ["(R) not mirrored: is_one_euclidean (colouring from the first and last stored ballot, axis from colours, "
-           "LP through python-mip/CBC, placement of the grey alternatives) and is_single_crossing, which it calls; "
-           "only its observable result (bool, position map) is judged",
+TRUSTED = ["is_one_euclidean is mirrored in Model/EuclidAlgo.v (precheck = the proved mirror sc_algo, colouring, axis, "
+           "runs, band placement) with the LP (python-mip/CBC, floats) replaced by an exact rational oracle; the "
+           "mirror is proved sound, not complete; the implementation is tied to it only by comparing verdicts "
+           "(m <= 6, n <= 12); the implementation's own map is judged by the verified checker at every size",
            "the exact reference c19.decide is only RUN for m <= 6 alternatives and n <= 12 distinct orders; beyond "
            "that size False answers are only checked on planted positives and True answers only through the "
            "witness (larger planted profiles of the thorough tier)",
@@ -137,6 +143,45 @@ def nested(rng, levels):
         return None
     seen = {}
     for v in vs:
+        seen.setdefault(tuple(sorted(apos, key=lambda a: abs(v - apos[a]))), v)
+    if len(seen) < 2:
+        return None
+    return apos, [(list(r), v) for r, v in sorted(seen.items(), key=lambda kv: kv[1])]
+
+
+def runs_family(rng):
+    """A 1-Euclidean profile whose ballots are  top, G_1, couple_1, G_2, couple_2, ... , tail : two voters at -1 and +1
+    (optionally a third one at 0), the common top at 0, k unanimous alternatives at 10, 11, ... (a long grey run
+    right behind the top), j couples at -100 t and 100 t + c_t with c_t = +-1 (the voters disagree on every couple,
+    so the couples are coloured and form later F groups), up to three unanimous alternatives behind each couple
+    and a unanimous tail.  Exercises the quantitative side of the placement: the width delta must bound the distance
+    to EVERY coloured alternative, and the step l/m inside a grey run needs m = number of ALL alternatives."""
+    vs = [-1, 1] if rng.random() < 0.7 else [-1, 0, 1]
+    pos = [0]
+    k = rng.choice([0, 1, 2, 3, 5, 8, 9, 10])
+    pos += [10 + t for t in range(k)]
+    j = rng.randint(1, 5)
+    for t in range(1, j + 1):
+        c = rng.choice([-1, 1])
+        pos += [-100 * t, 100 * t + c]
+        for u in range(rng.choice([0, 0, 1, 2, 3])):
+            pos.append(rng.choice([-1, 1]) * (100 * t + 40 + 3 * u))
+    for u in range(rng.choice([0, 1, 1, 2])):
+        pos.append(rng.choice([-1, 1]) * (100 * (j + 2) + 7 * u))
+    pos = list(dict.fromkeys(pos))
+    m = len(pos)
+    if m > 16:
+        return None
+    labels = list(range(1, m + 1))
+    rng.shuffle(labels)
+    if rng.random() < 0.3:
+        labels = list(range(1, m + 1))          # ballots 1, 2, 3, ... as in the usual examples
+    apos = dict(zip(labels, pos))
+    seen = {}
+    for v in vs:
+        d = sorted(abs(v - x) for x in pos)
+        if any(d[i] == d[i + 1] for i in range(len(d) - 1)):
+            return None
         seen.setdefault(tuple(sorted(apos, key=lambda a: abs(v - apos[a]))), v)
     if len(seen) < 2:
         return None
@@ -267,6 +312,17 @@ def generate(tier, seed):
         apos, prof = res
         for j, order in enumerate(storage_orders(rng, len(prof), extra=1)):
             out.append(mk_planted(sorted(apos), prof, apos, order, [1] * len(prof), gen="planted-nested", storage=j))
+    # ---- planted profiles  top, long grey run, couples, grey runs, tail  (m <= 16, 2..3 voters)
+    rng = random.Random(CAMPAIGN_SEED + 12)
+    cnt = 0
+    while cnt < (150 if quick else 1500):
+        res = runs_family(rng)
+        if res is None:
+            continue
+        cnt += 1
+        apos, prof = res
+        for j, order in enumerate(storage_orders(rng, len(prof), extra=0)):
+            out.append(mk_planted(sorted(apos), prof, apos, order, [1] * len(prof), gen="planted-runs", storage=j))
     # ---- (1') larger planted profiles (thorough only)
     if not quick:
         rng = random.Random(CAMPAIGN_SEED + 3)
@@ -507,6 +563,7 @@ def _layout(c, r):
         lay.append(("gen", ("c19.check", [pl[0], pl[1], pl[3], pl[4]])))
         if _small(pl[0], pl[1]):
             lay.append(("decide", ("c19.decide", [pl[0], pl[1]])))
+            lay.append(("algo", ("c19.algo", [pl[0], pl[1]])))
         if _is_true(r):
             lay.append(("wit", _check_req(pl[0], pl[1], r)))
     elif op == "c19.profile":
@@ -514,6 +571,7 @@ def _layout(c, r):
         lay.append(("refuted", ("c19.refuted", [pl[0], pl[1]]) if small else ("c19.refuted_fast", [pl[0], pl[1]])))
         if _small(pl[0], pl[1]):
             lay.append(("decide", ("c19.decide", [pl[0], pl[1]])))
+            lay.append(("algo", ("c19.algo", [pl[0], pl[1]])))
         if _is_true(r):
             lay.append(("wit", _check_req(pl[0], pl[1], r)))
     else:  # c19.orders
@@ -550,12 +608,28 @@ def _witness_reason(r):
             "along its ranking" % (miss_v, len(r[3]), r[4][0], r[4][1]))
 
 
+def _algo_verdict(M):
+    """verdict of the extracted mirror of is_one_euclidean: 1 / 0, None if not run"""
+    a = M.get("algo")
+    if isinstance(a, list) and a and a[0] == 0:
+        return 1 if a[1] else 0
+    return None
+
+
 def _model_inconsistent(M):
     """the theorems exclude these combinations; seeing one means the extracted model or the harness is broken"""
     if M.get("refuted") == 1 and M.get("decide") == 1:
         return "c19.refuted = 1 but c19.decide = 1 (contradicts eucl_refuted_sound / eucl_decide_correct)"
     if M.get("decide") == 0 and any(v == 1 for k, v in M.items() if k.startswith("wit") or k == "gen"):
         return "c19.decide = 0 but c19.check accepted an embedding (contradicts planted_sound / eucl_decide_correct)"
+    a = M.get("algo")
+    if a is not None:
+        if not (isinstance(a, list) and a and a[0] in (0, 1)):
+            return "c19.algo returned a malformed answer %r" % (a,)
+        if a[0] == 1:
+            return "the mirror c19.algo raised error code %r on a well-formed profile (contradicts eucl_algo_no_error)" % (a[1],)
+        if _algo_verdict(M) == 1 and M.get("decide") == 0:
+            return "the mirror c19.algo answers True but c19.decide = 0 (contradicts eucl_algo_exact_sound)"
     if M.get("refuted") == 1 and any(v == 1 for k, v in M.items() if k.startswith("wit") or k == "gen"):
         return "c19.refuted = 1 but c19.check accepted an embedding (contradicts refuted_no_witness)"
     return None
@@ -644,6 +718,11 @@ def stats(c, r, mres):
            "n=%s" % (n if n <= 6 else ">6")]
     if "decide" in M:
         lab.append("exact reference run: %s" % ("Euclidean" if M["decide"] == 1 else "not Euclidean"))
+    av = _algo_verdict(M)
+    if av is not None and isinstance(r, list) and r and r[0] == 0:
+        lab.append("mirror c19.algo: verdict %s the implementation's" % ("=" if av == r[1] else "DIFFERS from"))
+        if av != M.get("decide"):
+            lab.append("mirror c19.algo: verdict DIFFERS from the exact reference (mirror incomplete?)")
     elif c["op"] == "c19.planted":
         lab.append("planted beyond the size of the exact reference (positive oracle + witness check only)")
     try:
